@@ -369,20 +369,22 @@ static void env_apply(char *text) {
 // ------------------------------------------------------------------ device + callbacks
 static sx127x *device;
 static uint64_t *freq_list;
-static char oncb[3][200];  // reaction op for rx / tx / cad callbacks ("" = none)
+static char oncb[3][9000];  // reaction op for rx / tx / cad callbacks ("" = none)
 static int run_api(char **tok, int n, char *out, size_t outcap);
 
 static void react(int which) {
   if (oncb[which][0] == 0) return;
-  char tmp[200];
+  static char tmp[9000];
   strcpy(tmp, oncb[which]);
   char *tok[16];
   int n = 0;
   for (char *p = strtok(tmp, " "); p && n < 16; p = strtok(NULL, " ")) tok[n++] = p;
   char out[256];
+  char name[100];
+  snprintf(name, sizeof name, "%s", tok[0]);
   int rc = run_api(tok, n, out, sizeof out);
   char t2[400];
-  snprintf(t2, sizeof t2, "[%s=%x%s]", tok[0], rc, out);
+  snprintf(t2, sizeof t2, "[%s=%x%s]", name, rc, out);
   CB(t2);
 }
 static void rx_callback(sx127x *d, uint8_t *data, uint16_t len) {
